@@ -70,6 +70,20 @@ def rule_A9(tree: Tree) -> RuleResult:
                                       f"the {direction} arm must buffer the segment only after `seq not in seen_packets_{direction}` and record seq in that same "
                                       f"list on the same path (found test on {seen_list}, recorded={recorded}): otherwise an exact retransmission is framed twice "
                                       f"or a first transmission is dropped", m.line(ap)))
+    # the duplicate filter is the only way into the packet buffer
+    r.instances += 1
+    ses = tree.cls("session", "Session")
+    outside = []
+    for meth in ses.methods.values():
+        if meth.name == "handle_packet":
+            continue
+        for n in body_walk(meth.node):
+            if isinstance(n, ast.Call) and isinstance(n.func, ast.Attribute) and n.func.attr in ("append", "extend", "insert") and dotted(n.func.value) == "self.packet_buffer":
+                outside.append(f"{meth.qualname}: {src(n, 60)}")
+    first = [src(c, 40) for c in body_walk(ses.methods["__init__"].node) if isinstance(c, ast.Call) and dotted(c.func) == "self.handle_packet"]
+    r.ob(not outside and first == ["self.handle_packet(packet)"], Finding("A9", "session:Session:packet-buffer-entry",
+                                                                        f"segments may enter the packet buffer only through handle_packet (which records their sequence number), including the first one in __init__; "
+                                                                        f"found {outside or first}: a retransmission of an unrecorded segment is framed twice", m.relpath))
     r.instances += 1
     r.ob(dirs_seen == {"server", "client"}, Finding("A9", "session:Session.handle_packet:dedupe:both-directions",
                                                     f"both directions must buffer their segments (found arms for {sorted(dirs_seen)})", m.line(f.node)))
@@ -110,12 +124,28 @@ def rule_D9_seq(tree: Tree) -> RuleResult:
         f = tree.func("session", qn)
         r.instances += 1
         bad = []
+        wrongmod = []
         for n in body_walk(f.node):
-            if isinstance(n, ast.Compare):
-                for side in [n.left] + n.comparators:
-                    if isinstance(side, ast.BinOp) and isinstance(side.op, ast.Add) and ".seq" in src(side) and not _reduced_mod32(n):
-                        bad.append(src(n, 120))
-        r.ob(not bad, Finding("D9s", f"session:{qn}:seq-add-unreduced",
+            if isinstance(n, ast.Compare) and ".seq" in src(n, 400):
+                adds = [x for x in ast.walk(n) if isinstance(x, ast.BinOp) and isinstance(x.op, ast.Add) and ".seq" in src(x, 300)]
+                if not adds:
+                    continue
+                if _reduced_mod32(n):
+                    continue
+                other = [x for x in ast.walk(n) if isinstance(x, ast.BinOp) and isinstance(x.op, (ast.Mod, ast.BitAnd)) and isinstance(try_fold(x.right), int)]
+                if other:
+                    wrongmod.append(src(n, 200))
+                else:
+                    bad.append(src(n, 120))
+        r.instances += 1
+        r.ob(not wrongmod, Finding("D9s", f"session:{qn}:seq-wrong-modulus",
+                                   f"{qn}: `{wrongmod[0] if wrongmod else ''}` reduces the sequence arithmetic with a constant that is not 2^32 (mask 0xFFFFFFFF / modulus 0x100000000): "
+                                   f"a segment ending exactly at the wrap is treated as a gap", f.module.line(f.node)))
+        import hashlib
+        tag = hashlib.sha1((bad[0] if bad else "").replace("server", "X").replace("client", "X").encode()).hexdigest()[:6] if bad else ""
+        std = "self.X_packet_buffer[i].seq + len(self.X_packet_buffer[i].tls_data) != self.X_packet_buffer[i + 1].seq"
+        suffix = "" if (not bad or bad[0].replace("server", "X").replace("client", "X") == std) else f":{tag}"
+        r.ob(not bad, Finding("D9s", f"session:{qn}:seq-add-unreduced{suffix}",
                               f"{qn}: `{bad[0] if bad else ''}` adds a length to a 32-bit sequence number without reducing modulo 2^32: a connection "
                               f"whose sequence space wraps never satisfies the contiguity test again", f.module.line(f.node)))
         r.instances += 1
@@ -452,6 +482,7 @@ FULL_SCANS = [
     ("main", "run", "sessions", "every TLS session is finalised"),
     ("main", "run", "quic_sessions", "every QUIC session is finalised"),
     ("main", "get_port_map", "parser.mapports", "every -m pair is mapped"),
+    ("dpkt_dsb", "Reader.__init__", "idb.opts", "if_tsresol and if_tsoffset may come in any order"),
 ]
 
 
